@@ -37,7 +37,7 @@ pub struct Chain {
     pub next: u64,
 }
 
-pub fn make_chain(rng: &mut rand_chacha::ChaCha8Rng, nval: usize, first_block: u64, first_pregenesis: u64, len: u64) -> Chain {
+pub fn make_chain(rng: &mut crate::kit::SimRng, nval: usize, first_block: u64, first_pregenesis: u64, len: u64) -> Chain {
     let keys: Vec<validator::SecretKey> = (0..nval).map(|_| rng.gen()).collect();
     let weights: Vec<u64> = (0..nval).map(|_| rng.gen_range(1..4)).collect();
     let schedule = validator::Schedule::new(
